@@ -23,10 +23,11 @@ impl EventGen for ReuseElement {
         // The attributes become variables of the instance: hold them to the same
         // length limit as `<var>`, or a recursive template could grow a value
         // (t="$t $t") without bound.
-        for (key, value) in reuse_element.get_attrs() {
+        // (in attribute order, so that the same attribute is reported every time)
+        for (key, value) in &reuse_element.attrs {
             if value.len() > context.config.var_limit as usize {
                 return Err(SvgdxError::VarLimitError(
-                    key,
+                    key.clone(),
                     value.len(),
                     context.config.var_limit,
                 ));
